@@ -143,6 +143,11 @@ private:
     XalanSourceTreeDocument* const  m_ownerDocument;
 
     XalanNode*                      m_firstChild;
+
+    // The fragment's position among the nodes of the owner document,
+    // reserved when the fragment is created, so before any of its
+    // descendants.
+    const IndexType                 m_index;
 };
 
 
